@@ -241,6 +241,32 @@ def r4_accidentals(ctx):
                         val[a] = (k == ch)
                 if G.evaluate(fm, val):
                     table[ch] = ''.join(ast.literal_eval(e.node.value) for e in adds) if adds else ''
+    if not loops:
+        # the same map written as a join over the characters: the piece each character contributes is computed by the evaluator
+        rets = symex.returns(acc)
+        if len(rets) == 1 and isinstance(rets[0][1], ast.Call) and isinstance(rets[0][1].func, ast.Attribute) and rets[0][1].func.attr == 'join' \
+                and src(rets[0][1].func.value) == "''" and len(rets[0][1].args) == 1 \
+                and isinstance(rets[0][1].args[0], (ast.GeneratorExp, ast.ListComp)) and len(rets[0][1].args[0].generators) == 1 \
+                and src(rets[0][1].args[0].generators[0].iter) == 'self.name' and isinstance(rets[0][1].args[0].generators[0].target, ast.Name):
+            comp = rets[0][1].args[0]
+            v = comp.generators[0].target.id
+            okt = True
+            for ch in ('+', '-', 'C', 'n'):
+                keep = True
+                for cnd in comp.generators[0].ifs:
+                    okc, kv = ctx.ce.try_eval(cnd, acc.module, acc.cls, {v: ch})
+                    okt = okt and okc
+                    keep = keep and bool(kv)
+                if not keep:
+                    table[ch] = ''
+                    continue
+                oke, piece = ctx.ce.try_eval(comp.elt, acc.module, acc.cls, {v: ch})
+                okt = okt and oke and isinstance(piece, str)
+                table[ch] = piece
+            if not okt:
+                raise AnalysisError(f'{acc.loc}: the piece a character of the pitch name contributes to accidentals() is not computed')
+        else:
+            raise AnalysisError(f'{acc.loc}: accidentals() is neither a loop nor a join over the characters of the pitch name')
     ctx.check(okt and table == {'+': '#', '-': '-', 'C': '', 'n': ''}, 'R4', acc.loc, acc.qualname, 'accidental-map',
               'accidentals(): + -> #, - -> -, nothing else', f'accidentals() maps {table}')
     # alphabet agreement on the conversion path (element-wise model of NoteRestToken.export, per feasible path)
@@ -318,17 +344,29 @@ def r4_accidentals(ctx):
               f'{"; ".join(sorted(set(bad))[:2])}: notes without a duration (grace notes, stemless notes, exclude=[DURATION]) keep their '
               f'kern pitch under every clef')
     ae = ctx.prog.func(f'{N.TOKENIZERS}.AEKernTokenizer.tokenize')
-    okcb = False
-    env_ae = G.single_assignments(ae.node)
-    for c in walk_local(ae.node):
-        if not (isinstance(c, ast.Call) and isinstance(c.func, ast.Attribute) and c.func.attr == 'export'):
-            continue
-        cbv = {k.arg: k.value for k in c.keywords}.get('convert_pitch_to_agnostic')
-        if cbv is None:
-            continue
-        for q, val in _callback_values(ctx, ae, G.substitute(cbv, env_ae)):
-            okcb = okcb or (isinstance(val, ast.Call) and F.is_name(val.func, 'pitch_to_gkern_string') and len(val.args) == 2
-                            and src(val.args[0]) == f"PitchImporterFactory.create('kern').import_pitch({q})" and src(val.args[1]) == 'clef')
+    # what the callback computes, on every path of the tokenizer on which a clef is in force: whatever carries it (a nested
+    # function, a lambda, a bound helper, functools.partial, a factory method), called with the sub-token text q it returns
+    # pitch_to_gkern_string(<Humdrum importer>.import_pitch(q), <the clef object built from self.last_clef>)
+    okcb, n_cb, cb_bad = True, 0, ''
+    for cond, val, sp in symex.returns(ae):
+        if not (F.forced(cond, 'self.last_clef is None', False)):
+            continue            # no clef in force: the callback raises when it is called
+        for c in [c_ for c_ in ast.walk(val) if isinstance(c_, ast.Call) and isinstance(c_.func, ast.Attribute) and c_.func.attr == 'export']:
+            cbv = {k.arg: k.value for k in c.keywords}.get('convert_pitch_to_agnostic')
+            if cbv is None:
+                continue
+            res = F.callable_results(ctx, cbv, ae, {k: v for k, v in sp.env.items() if isinstance(v, ast.AST)})
+            if res is None:
+                raise AnalysisError(f'{ae.loc}: the conversion callback `{src(cbv)[:60]}` is not followed')
+            for q, v in res:
+                n_cb += 1
+                good = isinstance(v, ast.Call) and F.is_name(v.func, 'pitch_to_gkern_string') and len(v.args) == 2 and not v.keywords \
+                    and src(v.args[0]) == f"PitchImporterFactory.create('kern').import_pitch({q})" \
+                    and src(v.args[1]) in ('ClefFactory.create_clef(self.last_clef)', 'ClefFactory.create_clef(encoding=self.last_clef)')
+                if not good:
+                    okcb = False
+                    cb_bad = cb_bad or f'the callback returns `{src(v)[:140]}`'
+    okcb = okcb and n_cb > 0
     # every path of the agnostic tokenizer hands the conversion to the token: no token is exported without it
     n_ret = 0
     bare = []
@@ -342,7 +380,9 @@ def r4_accidentals(ctx):
               f'under `{bare[0] if bare else None}` the token is exported without the conversion callback: a note whose own category is not in '
               f'the selection (include=[PITCH, DURATION, ...] without NOTE_REST) keeps its kern letters while chord notes are converted')
     ctx.check(okcb, 'R4', ae.loc, ae.qualname, 'callback-shape',
-              'the callback converts the sub-token text with the Humdrum importer and the clef in force')
+              f'the callback converts the sub-token text with the Humdrum importer and the clef in force ({n_cb} callback paths)',
+              (cb_bad or 'no path of the tokenizer with a clef in force hands over a callback')
+              + ": not pitch_to_gkern_string(PitchImporterFactory.create('kern').import_pitch(text), ClefFactory.create_clef(self.last_clef))")
 
 
 def _forced(fm, atom, value):
@@ -515,14 +555,35 @@ def r6_clef_in_force(ctx, rule='R6'):
     ctx.check(ok, rule, et.loc, et.qualname, 'clef-forwarded',
               'the token of the clef node (or None when no clef was seen) is forwarded to the tokenizer factory')
     run_ = ctx.prog.func(f'{N.IMPORTER}.Importer.run')
-    upd = [n for n in walk_local(run_.node) if isinstance(n, ast.Call) and src(n.func) == 'node.last_signature_nodes.update']
-    oku = len(upd) == 1 and src(upd[0].args[0]) == 'node'
-    guard = None
-    for n in walk_local(run_.node):
-        if isinstance(n, ast.If) and upd and upd[0] in [x for s in n.body for x in ast.walk(s)]:
-            guard = n
-    oku = oku and guard is not None and src(guard.test) == 'isinstance(token, SignatureToken)'
+    # on every path through the cells of a row: the node just built is recorded in its own signature context exactly when the
+    # token is a SignatureToken; only the measure-start test and the bounding-box test may pre-empt that test
+    import itertools
+    from . import c07 as C07
+    oku, n_upd, why_u = True, 0, ''
+    for sp, tok, f_, add_ev in C07.cell_paths(ctx, run_):
+        built = src(add_ev.expr)
+        ups = [e.expr for e in sp.events if e.kind == 'expr' and isinstance(e.expr, ast.Call) and isinstance(e.expr.func, ast.Attribute)
+               and e.expr.func.attr == 'update' and src(e.expr.func.value).endswith('.last_signature_nodes')]
+        ats = G.atoms_of(f_)
+        if len(ats) > 16:
+            raise AnalysisError(f'{run_.loc}: too many conditions on a path through the cells of a row')
+        if C07.SIG_A not in ats:
+            ats = ats + [C07.SIG_A]
+        vals = [dict(zip(ats, bits)) for bits in itertools.product([False, True], repeat=len(ats))]
+        vals = [v for v in vals if G.evaluate(f_, v)]
+        if ups:
+            n_upd += 1
+            good = len(ups) == 1 and src(ups[0].func.value) == f'{built}.last_signature_nodes' and len(ups[0].args) == 1 \
+                and src(ups[0].args[0]) == built and all(v[C07.SIG_A] for v in vals)
+            if not good:
+                oku, why_u = False, why_u or f'`{src(ups[0])[:100]}` is not the node of the cell recorded in its own context under isinstance(token, SignatureToken)'
+        else:
+            pre = lambda v: v.get(C07.BAR_A, False) or (v.get(C07.CORE_A, False) and not v.get(C07.NF_A, False)) or v.get(C07.BBOX_A, False)
+            if any(v[C07.SIG_A] and not pre(v) for v in vals):
+                oku, why_u = False, why_u or f'a path through the cells does not record a SignatureToken node (under `{G.show(f_)[-120:]}`)'
+    oku = oku and n_upd > 0
     ctx.check(oku, rule, run_.loc, run_.qualname, 'signature-context-updated',
-              'the importer records a node in its own signature context exactly when its token is a SignatureToken (clefs included)')
+              'the importer records a node in its own signature context exactly when its token is a SignatureToken (clefs included)',
+              why_u or 'no path through the cells records a node in its signature context')
     ct = ctx.prog.cls(f'{N.TOKENS}.ClefToken')
     ctx.check(any(c.name == 'SignatureToken' for c in ctx.prog.mro(ct)), rule, ct.loc, ct.qualname, 'clef-is-signature', 'ClefToken is a SignatureToken')
